@@ -465,6 +465,10 @@ class T3Case(Case):
     def preload(self, sim, msg):
         r3.place(sim.mem, msg)
 
+    def dirty(self, sim, n):
+        for a in range(16 + n, 16 * (1 + self.nmaxb)):
+            sim.mem[a] = 0x21 + a % 0x5D
+
     def ref_read(self, image):
         return r3.read(image['mem'])
 
@@ -547,6 +551,11 @@ class T4Case(Case):
     def preload(self, sim, msg):
         r4.place(self.cc, sim.files[sim.fid], msg)
 
+    def dirty(self, sim, n):
+        f = sim.files[sim.fid]
+        for a in range(self.c.nlen_size + n, self.mfs):
+            f[a] = 0x21 + a % 0x5D
+
     def ref_read(self, image):
         return r4.read(self.cc, image['e104'])
 
@@ -626,6 +635,9 @@ def all_cases(tier, kinds=None):
 
 
 QUICK_COMBOS = (('count', 'empty'), ('tlv', 'long'))
+# Type 3 / 4: also the previous message followed by zeros, written over a tag
+# that holds remains of an older message behind the current one
+DIRTY_COMBOS = QUICK_COMBOS + (('prevzeros', 'dirty'),)
 MID_COMBOS = (('count', 'empty'), ('tlv', 'long'), ('ff', 'short'),
               ('zero', 'long'))
 FULL_COMBOS = tuple((p, q) for q in PREVS for p in PATTERNS)
@@ -668,6 +680,9 @@ GRID_DOC = {
 def plan(case, tier):
     """(lengths, combos) explored for `case` in `tier` (see GRID_DOC)."""
     ls, combos = _plan(case, tier)
+    if case.kind in ('T3', 'T4') and combos is QUICK_COMBOS and \
+            case.ref_capacity() <= 0x8000:
+        combos = DIRTY_COMBOS
     if case.kind == 'T3' and case.ref_capacity() > 0xFFFF:
         cap = case.ref_capacity()
         ls = sorted(x for x in set(
@@ -707,7 +722,7 @@ def prev_message(case, prev):
     cap = case.ref_capacity()
     if prev == 'empty':
         return b''
-    if prev == 'short':
+    if prev in ('short', 'dirty'):
         return content('count', min(cap, 5), 0xA0)
     return content('count', min(cap, 300), 0x50)
 
@@ -801,6 +816,10 @@ def check_write(case, prev, pattern, n):
     old = prev_message(case, prev)
     if old:
         case.preload(sim, old)
+    if prev == 'dirty':
+        # remains of an older, longer message behind the current one (a
+        # writer need not clear what the length field no longer covers)
+        case.dirty(sim, len(old))
     before = sim.image()
     try:
         clf, tag = case.activate(sim)
@@ -832,7 +851,11 @@ def check_write(case, prev, pattern, n):
     if not nd.is_writeable or not nd.is_readable:
         f.fail('C01', 'read', len(old), 'not-writeable', detail=True)
         return f
-    msg = content(pattern, n)
+    if pattern == 'prevzeros':
+        # the previous message followed by zeros
+        msg = (old + bytes(n))[:n]
+    else:
+        msg = content(pattern, n)
     mark_c, mark_w, mark_d = sim.n_cmds, len(sim.writes), len(sim.damage)
     exc = None
     try:
